@@ -276,7 +276,8 @@ func C10(c *mc.Ctx) {
 			}
 		}
 	}
-	c.Set("evaluations", evals)
+	c10Roots(c)
+	c.Set("evaluations", evals+c.Get("tx_lists_checked")+c.Get("tx_field_perturbations")+c.Get("receipt_field_perturbations"))
 	c.Assume("memkv has goleveldb's observable semantics")
 	c.Set("distinct_nontrivial", c.Get("distinct_change_sets"))
 	c.Set("rule", "every set of <=N writes on distinct targets (N=3 quick, 4 thorough) over 8 targets x 1-3 values, from 3 base states, in every permutation x residency {cache,reopened,purged} x read pattern {none,before-each,all-first}; a case is non-trivial/distinct when its effective change set against the base (per target final value) is new")
